@@ -612,11 +612,13 @@ func (msc *MinerSmartContract) contributeMpk(t *transaction.Transaction,
 	msc.mutexMinerMPK.Lock()
 	defer msc.mutexMinerMPK.Unlock()
 
-	mpk := &block.MPK{ID: t.ClientID}
+	mpk := &block.MPK{}
 	if err := mpk.Decode(inputData); err != nil {
 		return "", common.NewErrorf("contribute_mpk_failed",
 			"decoding request: %v", err)
 	}
+	// the contribution is the sender's, whatever id the payload names
+	mpk.ID = t.ClientID
 
 	if len(mpk.Mpk) != dmn.T {
 		return "", common.NewErrorf("contribute_mpk_failed",
